@@ -26,6 +26,8 @@ func init() {
 			"the correctness of the admissibility tests as values.",
 		Run: runC03,
 		Mutants: []Mutant{
+			{Name: "status-written-unconditionally", File: "controller/main.go",
+				Old: "\t\tif err := c.client.UpdateStatus(svc); err != nil {", New: "\t\tsvc.ResourceVersion = \"\"\n\t\tif err := c.client.UpdateStatus(svc); err != nil {", Expect: "copy-edited-only-by-converge"},
 			{Name: "ipv6-first-pair-refused", File: "internal/ipfamily/ipfamily.go",
 				Old: "\t\tif (ip1.To4() == nil) == (ip2.To4() == nil) {", New: "\t\tif ip1.To4() == nil || ip2.To4() != nil {", Expect: "FAMILY-PAIR"},
 			{Name: "namespace-list-error-ignored", File: "internal/k8s/controllers/pool_controller.go",
@@ -109,6 +111,8 @@ func c03Reasons(f *chk.Fn, g *chk.Graph, lbIPs types.Object) []chk.Guard {
 }
 
 func runC03(p *chk.Prog, r *chk.Report) {
+	// pools that contain one another are refused: the owner of an address is unambiguous (CIDR-CONTAINS, shared with C02, C08)
+	cidrContainmentRule(p, r)
 	argRolesRule(p, r, 20, allocPkg, "controller")
 	// a released allocation leaves no tenant behind (SIBLING, shared with C11): a ghost tenant makes the next holder's re-adoption fail
 	c11Sibling(p, r)
@@ -546,6 +550,31 @@ func c03Write(p *chk.Prog, r *chk.Report) {
 		return true
 	}(), "", "convergeBalancer does not work on a DeepCopy of the observed Service")
 	x.Check("SetBalancer:writes-the-converged-copy", u.Pos(), svcObj != nil && f.ObjOf(arg) == svcObj, "", "UpdateStatus is not given the converged copy")
+	// ... as convergeBalancer left it: SetBalancer itself stores nothing into the copy (its resourceVersion in particular
+	// is the one the decision was taken on - the API server refuses the write when the object changed since, and the
+	// retry decides again on the fresh object)
+	edited := token.NoPos
+	ast.Inspect(f.Body, func(n ast.Node) bool {
+		as, ok := n.(*ast.AssignStmt)
+		if !ok || svcObj == nil {
+			return true
+		}
+		for _, l := range as.Lhs {
+			if _, isId := ast.Unparen(l).(*ast.Ident); isId {
+				continue
+			}
+			if f.RootObj(l) == svcObj {
+				edited = as.Pos()
+			}
+		}
+		return true
+	})
+	x.Check("SetBalancer:copy-edited-only-by-converge", func() token.Pos {
+		if edited.IsValid() {
+			return edited
+		}
+		return u.Pos()
+	}(), !edited.IsValid(), "", "SetBalancer stores into the converged copy before writing it (a cleared resourceVersion makes the write unconditional: a decision taken on a stale object overwrites the current status, and a converged Service is moved)")
 	isSvc := f.IsObj(svcObj)
 	x.Check("SetBalancer:write:differs-from-observed", u.Pos(), g.Dominated(u, g.GPat(false, "reflect.DeepEqual(RO, S)", chk.H("RO", ro), chk.H("S", isSvc))), "", "UpdateStatus is reachable although the converged copy equals the observed Service")
 	var tw types.Object
